@@ -357,6 +357,7 @@ def check(repo, run, tier):
     g(r4, repo, run)
     g(unitrules.function_node_init, repo, run, 'C13.R5')
     g(unitrules.suffix_constructors, repo, run, 'C13.R4')
+    g(unitrules.tag_spec, repo, run, 'C13.R4', ['!call', '!call:', '!bind', '!bind:'])
     g.done()
 
 
